@@ -103,7 +103,7 @@ SIM_OPS = {
 
 DELETE_EVS = {"PrepareRemove", "Coalesce", "RemoveDisk", "CleanerPick", "CleanerIdle"}
 REBUILD_EVS = {"SyncFile", "UpdateLUNMap", "LunMapScan", "LunMapMerge"}
-STRUCT_RULES = {"Chain", "EngineDisks", "DirNames", "DirMeta", "Head", "VolumeMeta"}
+STRUCT_RULES = {"Chain", "EngineDisks", "DirNames", "DirMeta", "Head", "VolumeMeta", "HeadParent"}
 
 
 def attribute(f):
@@ -304,6 +304,12 @@ def run(prop, tier, seed, replay=None, embed=False):
     returns (violations, known, stats)"""
     t0 = time.time()
     quick = tier == "quick"
+    if replay is not None and prop == "C17" and (json.load(open(replay)).get("scenario") or {}).get("layer") == "REST":
+        import fam_rest
+        vm, _ = fam_rest.matrix_part(tier, seed)      # the whole matrix is re-run (a minute)
+        for path, rec in vm:
+            print("VIOLATION property=C17 replay=%s" % path)
+        return 1 if vm else 0
     if replay is not None and prop in ("C01", "C16") and (json.load(open(replay)).get("scenario") or {}).get("layer") == "L1":
         import fam_controller
         v, k, st = fam_controller.run(prop, tier, seed, replay=replay, embed=True)
@@ -488,6 +494,11 @@ def run(prop, tier, seed, replay=None, embed=False):
             v1, k1, l1 = fam_controller.run("C16", tier, seed, embed=True)
             violations += v1
             known += k1
+        if prop == "C17" and replay is None and not embed:
+            # REST half of C17: the replica's state x action table on the real router (harness L5)
+            import fam_rest
+            vm, l1 = fam_rest.matrix_part(tier, seed)
+            violations += vm
         if prop == "C01" and replay is None and not embed:
             # the controller's range check (harness L1): out-of-range reads and writes in every
             # membership of a bootstrap; refused, no replica touched, nothing changed
@@ -531,7 +542,7 @@ def run(prop, tier, seed, replay=None, embed=False):
             failures_in_scope=len(violations) + len(known), failures_other_properties=others[:20],
             exhaustive=False)
         if l1:
-            coverage["controller_part_L1"] = l1
+            coverage["rest_matrix_part_L5" if prop == "C17" else "controller_part_L1"] = l1
         if replay is not None:
             coverage["states"] = coverage["states"] or 1
             coverage["transitions"] = coverage["transitions"] or 1
@@ -542,9 +553,10 @@ def run(prop, tier, seed, replay=None, embed=False):
         for path, rec in violations:
             print("VIOLATION property=%s replay=%s" % (prop, path))
             s = rec["signature"]
+            fr = rec.get("failed_record") or {}
             print("  rule=%s site=%s context=%s logged=%s spec=%s" % (
-                ",".join(s["rule"]), s["site"], s["context"], rec["failed_record"]["logged"]["res"],
-                rec["failed_record"]["spec"]["res"]))
+                ",".join(s["rule"]), s["site"], s["context"], (fr.get("logged") or {}).get("res", "-"),
+                (fr.get("spec") or {}).get("res", "-")))
         log("[%s] %s: %d executions, %d records, %d violations, %d known, %d other-property failures, %.0fs" % (
             prop, tier, result["traces"], result["records"], len(violations), len(known), len(others),
             time.time() - t0))
